@@ -28,6 +28,7 @@ EXPLANATION = (
     "(d) registry keys equal the CLI choices of both command line tools and "
     "each lambda forwards (scores, targets) in that order. (e) keywords "
     "passed to scipy.optimize.nnls exist in the installed SciPy signature. "
+    "Also: (f) every SQL statement of the confidence writer binds each column to the parameter of its own role; the direction flag is applied before the PEP estimation on every path; no frame written to a file went through reset_index() without drop=True. "
     "NOT decided: finiteness, non-negativity of the alternative q-value "
     "estimators, statistical quality, triqler internals.")
 TECHNIQUE = ("abstract interpretation over a row-alignment / monotonicity "
